@@ -1,15 +1,26 @@
 //! C05 — local time follows the zone data: offsets, gaps and folds.
 //!
-//! Implementation side of the correspondence (ops `tzl.at`, `tzl.loc`, `tzl.cache`) and the direct
-//! oracles on the implementation, which share no code with the model:
+//! Implementation side of the correspondence (ops `tzl.at`, `tzl.loc`, `tzl.cache` incl. the
+//! `earliest()` / `latest()` of `Local.from_local_datetime`; hypothesis evaluators `tzl.sep`,
+//! `tzl.yearly`; the brute-force wall sets `tzl.wall`) and the direct oracles on the implementation,
+//! which share no code with the model:
 //!   O1  offset_at(t) is what the zone data prescribe (table: last transition <= t / first type;
 //!       rule: an independent evaluation with Hinnant's civil-day algorithm)
 //!   O2  round trip: offsets_for_local(t + offset_at(t)) contains offset_at(t)
 //!   O3  0/1/2 candidates = brute-force wall set computed from offset_at over the zone's offsets,
 //!       candidates distinct and ordered earliest instant first
-//! O2/O3 skip the one excluded boundary second per transition (T + prevOff), rule transitions that
-//! are not more than a day inside the calendar year, and zones whose wall-clock windows of
-//! consecutive transitions overlap (not `WellSeparated`; those are compared with the model only).
+//! O2/O3 skip the one excepted boundary second per transition (T + prevOff) and rules whose
+//! transitions are not more than a day inside the calendar year (outside the property's quantifier).
+//! Every other reading is judged, in one of three classes (`judge_wall`):
+//!   * zone `WellSeparated ∧ JoinSeparated`, rule regular in the years around the reading
+//!     (`Spec.Zone.RuleYearly` at y-1, y, y+1): the domain of the composed theorem; plain messages;
+//!   * zone NOT separated (wall-clock windows of consecutive transitions, or of the last transition
+//!     and the footer rule, overlap): the property is FALSE there in model and code
+//!     (`Props.C05.not_separated_counterexample`); failures carry the prefix
+//!     `zone with overlapping wall-clock windows: `;
+//!   * rule inside the quantifier but not regular (start/end order flips between years, the two
+//!     transitions closer than twice the offset jump, a wall-clock image of a transition outside the
+//!     year): failures carry the prefix `rule outside the yearly-regular class: `.
 use crate::ctx::*;
 use chrono::__verif_tz as vt;
 use chrono::{DateTime, Local, MappedLocalTime, NaiveDateTime, TimeZone};
@@ -183,20 +194,43 @@ fn rule_is_dst(a: &Alt, t: i64) -> bool {
         !(e <= t && t < s)
     }
 }
-/// the wall-clock side needs more than "inside the year": the two transitions of year y further
-/// apart than twice the offset jump (`Spec.Zone.RuleSeparated`), and the same start/end order on
-/// the wall clock and in UT (a rule whose order flips from year to year has an implied extra
-/// transition at the year boundary, which the property excludes)
-fn rule_regular(a: &Alt, y: i64) -> bool {
-    let s = rule_day(a.start, y) * 86400 + a.start_time;
-    let e = rule_day(a.end, y) * 86400 + a.end_time;
-    let d2 = 2 * (a.dst.off - a.std.off).abs();
-    (s - e).abs() > d2 && ((s < e) == (start_at(a, y) <= end_at(a, y)))
-}
-fn rule_shape(a: &Alt, y: i64) -> bool {
-    rule_day(a.start, y) * 86400 + a.start_time < rule_day(a.end, y) * 86400 + a.end_time
-}
 const YEAR_LIM: i64 = 2_000_000_000; // rule evaluation only for years well inside i32
+
+/// `Spec.Zone.InsideYear` at year y: both rule transitions (UT) more than one day inside the year —
+/// the restriction the property's quantifier puts on rules
+fn inside_year_ut(a: &Alt, y: i64) -> bool {
+    let lo = days_from_civil(y, 1, 1) * 86400 + 86400;
+    let hi = days_from_civil(y + 1, 1, 1) * 86400 - 86400;
+    [start_at(a, y), end_at(a, y)].iter().all(|&x| lo < x && x < hi)
+}
+fn in_year(y: i64, x: i64) -> bool {
+    days_from_civil(y, 1, 1) * 86400 < x && x < days_from_civil(y + 1, 1, 1) * 86400
+}
+/// `Spec.Zone.RuleSeparated` on the wall-clock start S / end E of daylight time
+fn rule_separated(a: &Alt, s: i64, e: i64) -> bool {
+    let d = a.dst.off - a.std.off;
+    let gap = if s < e { e - s } else { s - e };
+    2 * d < gap && -2 * d < gap
+}
+/// `Spec.Zone.RuleYearly` at year y: each transition and its two wall-clock images inside the year,
+/// the same start/end order next year, the two transitions of the year `RuleSeparated`
+fn rule_yearly_at(a: &Alt, y: i64) -> bool {
+    let (s, e) = (start_at(a, y), end_at(a, y));
+    [s, s + a.std.off, s + a.dst.off, e, e + a.std.off, e + a.dst.off].iter().all(|&x| in_year(y, x))
+        && ((s <= e) == (start_at(a, y + 1) <= end_at(a, y + 1)))
+        && rule_separated(a, s + a.std.off, e + a.dst.off)
+}
+
+pub const PFX_ZONE: &str = "zone with overlapping wall-clock windows: ";
+pub const PFX_RULE: &str = "rule outside the yearly-regular class: ";
+
+/// how O2/O3 judge a wall-clock reading
+enum Judge {
+    /// outside the property (excepted second, rule outside the quantifier, year out of range)
+    Skip(&'static str),
+    /// judged by the brute-force wall set; `Some(prefix)` = a class in which the property is known to fail
+    Check(Option<&'static str>),
+}
 
 // ------------------------------------------------------------------------------------------------
 // zone under test
@@ -348,29 +382,42 @@ fn spec_at(pz: &Pz, t: i64) -> Option<(i64, bool)> {
     }
 }
 
-/// wall-clock readings excluded by the property: T + prevOff for table transitions, the rule's
-/// own start/end wall times in the neighbouring years
-fn excluded_wall(pz: &Pz, l: i64) -> bool {
-    for (i, &(t, _)) in pz.trans.iter().enumerate() {
-        if t.saturating_add(prev_off(pz, i)) == l {
-            return true;
+/// classify a wall-clock reading for O2/O3.  Excepted by the property: T + prevOff for table
+/// transitions that change the offset, the rule's own start/end wall-clock second in the neighbouring
+/// years when the rule changes the offset.
+fn judge_wall(pz: &Pz, sep: bool, offs: &[i64], l: i64) -> Judge {
+    // (`NoBoundary'`: only transitions that change the offset end a skipped or repeated interval)
+    for (i, &(t, idx)) in pz.trans.iter().enumerate() {
+        if prev_off(pz, i) != pz.types[idx].off && t.saturating_add(prev_off(pz, i)) == l {
+            return Judge::Skip("excepted boundary second");
         }
     }
+    let mut class = if sep { None } else { Some(PFX_ZONE) };
     if let Rule::Alt(a) = &pz.rule {
-        let y = year_of_day(l.div_euclid(86400));
-        if y.abs() > YEAR_LIM {
-            return true;
-        }
-        for k in y - 1..=y + 1 {
-            if !inside_year(a, k) || !rule_regular(a, k) || rule_shape(a, k) != rule_shape(a, y) {
-                return true;
+        // the rule plays a part only if some candidate instant l - o lies at or after the last transition
+        let relevant = match (pz.trans.last(), offs.first()) {
+            (Some(&(t, _)), Some(&omin)) => l >= t.saturating_add(omin),
+            _ => true,
+        };
+        if relevant {
+            let y = year_of_day(l.div_euclid(86400));
+            if y.abs() > YEAR_LIM {
+                return Judge::Skip("year out of the range of the rule arithmetic");
             }
-            if start_at(a, k) + a.std.off == l || end_at(a, k) + a.dst.off == l {
-                return true;
+            for k in y - 1..=y + 1 {
+                if !inside_year_ut(a, k) {
+                    return Judge::Skip("rule transition within a day of the year boundary (outside the quantifier)");
+                }
+                if a.std.off != a.dst.off && (start_at(a, k) + a.std.off == l || end_at(a, k) + a.dst.off == l) {
+                    return Judge::Skip("excepted boundary second");
+                }
+            }
+            if class.is_none() && !(y - 1..=y + 1).all(|k| rule_yearly_at(a, k)) {
+                class = Some(PFX_RULE);
             }
         }
     }
-    false
+    Judge::Check(class)
 }
 
 /// month of a rule day in year y, as the code compares them
@@ -539,7 +586,11 @@ fn queries(c: &mut Ctx, z: &Zc) -> (Vec<i64>, Vec<i64>) {
 
 /// report the first failing input per zone and oracle, count the rest
 fn fail1(c: &mut Ctx, seen: &mut BTreeSet<String>, pz: &Pz, wall: i64, what: &str, detail: &str) {
+    fail1c(c, seen, pz, wall, None, what, detail)
+}
+fn fail1c(c: &mut Ctx, seen: &mut BTreeSet<String>, pz: &Pz, wall: i64, class: Option<&str>, what: &str, detail: &str) {
     let what = if same_month(pz, wall) { format!("same-month rule: {what}") } else { what.to_string() };
+    let what = format!("{}{}", class.unwrap_or(""), what);
     if seen.insert(what.clone()) {
         c.fail(&what, detail);
     } else {
@@ -571,6 +622,21 @@ fn run_zone(c: &mut Ctx, z: &Zc) {
     if sep_comparable(pz) {
         c.op(&format!("tzl.sep {}", z.dump), b01(z.sep));
     }
+    // the year-by-year hypotheses on the rule (`RuleYearly`, `InsideYear`), evaluated here on one
+    // Gregorian cycle with the harness's own calendar and by the model (`ruleYearlyB`, `insideYearB`;
+    // `Props.C05.ruleYearly_of_B`: the 400-year check decides the statement for every year)
+    // `spec_everywhere`: the specification's step function `offAt` is what the code's lookup by instant
+    // must return at EVERY instant (`offAt_ok`: any table; alternate-time rules need `InsideYear`, which
+    // the 400-year check decides) — the condition under which the harness's brute-force wall set, which
+    // is built from the code's `offset_at`, can be compared with the model's `Spec.Zone.wallSet`
+    let mut spec_everywhere = oracles;
+    if let Rule::Alt(a) = &pz.rule {
+        let yearly = (2000..2400).all(|y| rule_yearly_at(a, y));
+        let inside = (2000..2400).all(|y| inside_year_ut(a, y));
+        c.op(&format!("tzl.yearly {}", z.dump), &format!("{}{}", b01(yearly), b01(inside)));
+        c.count(&format!("zone.rule.alt.yearly={}.inside={}", b01(yearly), b01(inside)));
+        spec_everywhere &= inside;
+    }
     // ---- lookup by instant
     for chunk in at.chunks(400) {
         let res: Vec<Result<(i32, bool), String>> =
@@ -600,12 +666,15 @@ fn run_zone(c: &mut Ctx, z: &Zc) {
             // O2
             let l = t.saturating_add(*o as i64);
             if let Some(nd) = naive(l) {
-                if !z.sep {
-                    c.count("O2.skipped(not well separated)");
-                } else if excluded_wall(pz, l) {
-                    c.count("O2.skipped(excluded boundary second / rule near year boundary or irregular)");
-                } else {
-                    c.count("O2.checked");
+                let class = match judge_wall(pz, z.sep, &offs, l) {
+                    Judge::Skip(why) => {
+                        c.count(&format!("O2.skipped({why})"));
+                        None
+                    }
+                    Judge::Check(class) => Some(class),
+                };
+                if let Some(class) = class {
+                    c.count(&format!("O2.checked{}", class_tag(class)));
                     let back = guard(|| z.zone.offsets_for_local(nd)).unwrap_or(Err("panic".into()));
                     let has = match &back {
                         Ok(MappedLocalTime::Single(x)) => x == o,
@@ -613,8 +682,8 @@ fn run_zone(c: &mut Ctx, z: &Zc) {
                         _ => false,
                     };
                     if !has {
-                        fail1(
-                            c, &mut seen, pz, l,
+                        fail1c(
+                            c, &mut seen, pz, l, class,
                             "round trip: the instant is not among the candidates of its own wall-clock time",
                             &format!("{} [{}] t={} off={} local={} candidates={} dump={}", z.class, z.label, t, o, l, show_loc(&back), short(&z.dump)),
                         );
@@ -634,6 +703,7 @@ fn run_zone(c: &mut Ctx, z: &Zc) {
             .collect();
         let line = format!("tzl.loc {} {}", z.dump, chunk.iter().map(|t| t.to_string()).collect::<Vec<_>>().join(","));
         c.op(&line, &res.iter().map(show_loc).collect::<Vec<_>>().join(","));
+        let mut walls: Vec<(i64, String)> = vec![];
         for (&l, r) in chunk.iter().zip(&res) {
             let kind = match r {
                 Ok(MappedLocalTime::None) => "none",
@@ -662,14 +732,13 @@ fn run_zone(c: &mut Ctx, z: &Zc) {
             if !oracles {
                 continue;
             }
-            if !z.sep {
-                c.count("O3.skipped(not well separated)");
-                continue;
-            }
-            if excluded_wall(pz, l) {
-                c.count("O3.skipped(excluded boundary second / rule near year boundary or irregular)");
-                continue;
-            }
+            let class = match judge_wall(pz, z.sep, &offs, l) {
+                Judge::Skip(why) => {
+                    c.count(&format!("O3.skipped({why})"));
+                    continue;
+                }
+                Judge::Check(class) => class,
+            };
             // O3: brute-force wall set from offset_at
             let mut w: Vec<i64> = vec![];
             let mut bad = false;
@@ -690,21 +759,43 @@ fn run_zone(c: &mut Ctx, z: &Zc) {
             }
             w.sort();
             w.dedup();
+            if spec_everywhere && l.abs() < (1i64 << 54) {
+                let txt = if w.is_empty() { "-".to_string() } else { w.iter().map(|t| t.to_string()).collect::<Vec<_>>().join("/") };
+                walls.push((l, txt));
+            }
             let got: Option<Vec<i64>> = match r {
                 Ok(MappedLocalTime::None) => Some(vec![]),
                 Ok(MappedLocalTime::Single(o)) => Some(vec![l - *o as i64]),
                 Ok(MappedLocalTime::Ambiguous(x, y)) => Some(vec![l - *x as i64, l - *y as i64]),
                 Err(_) => None,
             };
-            c.count(&format!("O3.checked.wallset{}", w.len().min(3)));
+            c.count(&format!("O3.checked{}.wallset{}", class_tag(class), w.len().min(3)));
             if got.as_ref() != Some(&w) {
-                fail1(
-                    c, &mut seen, pz, l,
+                fail1c(
+                    c, &mut seen, pz, l, class,
                     "candidates differ from the instants that read this wall-clock time",
                     &format!("{} [{}] local={} got={} wall_set={:?} dump={}", z.class, z.label, l, show_loc(r), w, short(&z.dump)),
                 );
             }
         }
+        // the harness's brute-force wall sets (from the code's lookup by instant) against the model's
+        // `Spec.Zone.wallSet` (from the specification's step function): ties O3's yardstick to the
+        // `wallSet` that `Props.C05.wallSet_mem` is about
+        if !walls.is_empty() {
+            c.count("wall.sets-compared-with-Spec.wallSet");
+            c.op(
+                &format!("tzl.wall {} {}", z.dump, walls.iter().map(|(l, _)| l.to_string()).collect::<Vec<_>>().join(",")),
+                &walls.iter().map(|(_, w)| w.as_str()).collect::<Vec<_>>().join(","),
+            );
+        }
+    }
+}
+
+fn class_tag(class: Option<&str>) -> &'static str {
+    match class {
+        None => "",
+        Some(PFX_ZONE) => "[zone not separated]",
+        Some(_) => "[rule not yearly-regular]",
     }
 }
 
@@ -1070,6 +1161,9 @@ fn through_local(c: &mut Ctx, tz: &str, z: &Zc) {
     };
     pick(&at, 'u', c);
     pick(&loc, 'l', c);
+    // the result contract: `Local.from_local_datetime(l).earliest()` / `.latest()`
+    pick(&loc, 'e', c);
+    pick(&loc, 'L', c);
     let old = std::env::var("TZ").ok();
     std::env::set_var("TZ", tz);
     let qs2 = qs.clone();
@@ -1135,6 +1229,18 @@ fn through_local(c: &mut Ctx, tz: &str, z: &Zc) {
                 let nd = naive(x).unwrap();
                 if q.starts_with('u') {
                     gs(|| Local.offset_from_utc_datetime(&nd), |o| format!("s{}", o.local_minus_utc()))
+                } else if q.starts_with('e') || q.starts_with('L') {
+                    let first = q.starts_with('e');
+                    gs(
+                        || {
+                            let m = Local.from_local_datetime(&nd);
+                            if first { m.earliest() } else { m.latest() }
+                        },
+                        |d| match d {
+                            None => "n".into(),
+                            Some(d) => format!("{}/{}", d.timestamp(), d.offset().local_minus_utc()),
+                        },
+                    )
                 } else {
                     gs(
                         || Local.offset_from_local_datetime(&nd),
@@ -1212,15 +1318,43 @@ pub fn run(c: &mut Ctx) {
                 }
                 c.sample(&format!("system zone {} ({} transitions, well separated: {})", rel, zc.pz.trans.len(), zc.sep));
                 run_zone(c, &zc);
-                if class == "sys" && glue.len() < c.n(8, 40) {
+                if class == "sys" && glue.len() < c.n(16, 60) {
                     glue.push((format!(":{p}"), p.clone()));
                 }
             }
             _ => c.count("sys.rejected"),
         }
     }
+    // ---- B0. directed synthetic zones
+    let directed: &[(&str, &[(i32, bool, &str)], &[(i64, u8)], &str)] = &[
+        // `Props.C05.nsZone` / `nsZone2`: the kernel-checked counterexamples outside `WellSeparated`
+        ("nsZone", &[(0, false, "AAA"), (3600, true, "BBB")], &[(1_000_000, 1), (1_000_600, 0)], ""),
+        ("nsZone2", &[(3600, true, "BBB"), (0, false, "AAA"), (7200, true, "CCC")], &[(1_000_000, 1), (1_000_600, 2)], ""),
+        // the trivial zone shapes: one type and nothing else; no transitions + fixed rule; no transitions + rule
+        ("one type", &[(3600, false, "AAA")], &[], ""),
+        ("one type, far east", &[(93600, false, "AAA")], &[], ""),
+        ("fixed rule only", &[(7200, false, "FIX")], &[], "FIX-2"),
+        ("rule only", &[(-18000, false, "EST")], &[], "EST5EDT,M3.2.0,M11.1.0"),
+        // `Props.C05.lonZone`: an offset-preserving transition (London 1968-10-27), no excepted second there
+        ("lonZone", &[(0, false, "GMT"), (3600, true, "BST"), (3600, false, "BST")], &[(-59_004_000, 1), (-37_242_000, 2), (57_722_400, 0)], ""),
+        // `Props.C05.exZoneUS`
+        ("exZoneUS", &[(-18000, false, "EST"), (-14400, true, "EDT")], &[(-1_633_280_400, 1), (-1_615_140_000, 0), (1_710_054_000, 1)], "EST5EDT,M3.2.0,M11.1.0"),
+    ];
+    for (name, types, trans, footer) in directed {
+        let bytes = write_tzif(b'2', types, trans, footer);
+        match guard(|| vt::from_tzif(&bytes)) {
+            Ok(Ok(z)) => {
+                let zc = mk("directed", name.to_string(), z);
+                c.sample(&format!("directed zone {} -> {}", name, short(&zc.dump)));
+                run_zone(c, &zc);
+            }
+            _ => c.fail("from_tzif rejected or panicked on a directed synthetic zone", name),
+        }
+    }
     // ---- B. synthetic TZif files from random zone models
     let nsyn = c.n(300, 2000);
+    let (mut syn_glue_big, mut syn_glue_small) = (0usize, 0usize);
+    let mut syn_files: Vec<String> = vec![];
     let mut made = 0;
     let mut tries = 0;
     while made < nsyn && tries < nsyn * 4 {
@@ -1255,6 +1389,19 @@ pub fn run(c: &mut Ctx) {
                     c.sample(&format!("synthetic zone {} -> {}", zc.label, short(&zc.dump)));
                 }
                 run_zone(c, &zc);
+                // a few of them also through `Local` (TZ=:<file>): half of them zones with an offset that
+                // `FixedOffset` cannot hold (the glue drops such answers: `Props.C05.cache_local_drops`)
+                let big = zc.pz.types.iter().any(|t| t.off.abs() >= 86400);
+                let quota = c.n(6, 24);
+                if zc.pz.leaps == 0 && ((big && syn_glue_big < quota) || (!big && syn_glue_small < quota)) {
+                    let path = std::env::temp_dir().join(format!("c05-{}-{}.tzif", std::process::id(), syn_files.len()));
+                    if std::fs::write(&path, &bytes).is_ok() {
+                        if big { syn_glue_big += 1 } else { syn_glue_small += 1 }
+                        let p = path.to_string_lossy().into_owned();
+                        glue.push((format!(":{p}"), p.clone()));
+                        syn_files.push(p);
+                    }
+                }
             }
             Ok(Err(e)) => {
                 c.count(&format!("syn.rejected.{}", e.split('(').next().unwrap_or("?")));
@@ -1268,6 +1415,9 @@ pub fn run(c: &mut Ctx) {
         "NZST-12NZDT,M9.5.0,M4.1.0/3", "<-03>3<-02>,M3.5.0/-2,M10.5.0/-1", "CST6CDT,J60,J300", "CST6CDT,59,299",
         "AAA3BBB,J1/0,J365/24", "AAA-3BBB,0/0,365/0", "XXX-5:30", "UTC0", "WET0WEST,M3.5.0,M10.5.0/3",
         "AAA0BBB-1,M3.1.0,M3.4.0", "AAA0BBB1,M10.1.0,M10.4.0", "AAA0BBB-2,M2.5.0/24,M9.1.6/0",
+        // inside the quantifier but outside `RuleYearly`: the two transitions closer than twice the offset
+        // jump; the start/end order flipping from year to year (judged under the prefix PFX_RULE)
+        "AAA0BBB-2,M6.1.0/2,M6.1.0/3", "AAA0BBB-1,M6.2.0/2,J162/2", "AAA0BBB-1,J162/2,M6.2.0/2",
     ];
     let nposix = c.n(600, 5000);
     for i in 0..nposix {
@@ -1279,7 +1429,7 @@ pub fn run(c: &mut Ctx) {
                     c.sample(&format!("POSIX rule {} -> {}", rule, zc.dump));
                 }
                 run_zone(c, &zc);
-                if i < c.n(4, 12) {
+                if i < c.n(8, 24) {
                     glue.push((rule.clone(), String::new()));
                 }
             }
@@ -1298,5 +1448,8 @@ pub fn run(c: &mut Ctx) {
             let zc = mk("glue", tz.clone(), z);
             through_local(c, &tz, &zc);
         }
+    }
+    for p in syn_files {
+        let _ = std::fs::remove_file(p);
     }
 }
